@@ -172,9 +172,10 @@ var c02Values = map[string]any{
 	"word": "word", "amp": "a & b", "lt": "1 < 2", "tag": "<b>x</b>", "dq": `say "hi"`, "sq": "it's", "ent": "&amp;",
 	"lead": "  lead", "trail": "trail  ", "nbsp": "\u00a0n\u00a0", "nilv": nil, "int": 42, "neg": -7, "true": true, "float": 2.5, "entlt": "&lt;i&gt;", "semi": "a;b&c",
 	// line breaks as Windows and old Macs write them: a parser turns a raw CR into LF
+	"f32": float32(0.1), "f32b": float32(19.99), "big": 1234567.0, "small": 0.00002, "u8": uint8(200), "i64": int64(-5),
 	"crlf": "l1\r\nl2", "cr": "m1\rm2", "tabnl": "t\tu\nv",
 }
-var c02ValueNames = []string{"word", "amp", "lt", "tag", "dq", "sq", "ent", "lead", "trail", "nbsp", "nilv", "int", "neg", "true", "float", "entlt", "semi", "crlf", "cr", "tabnl"}
+var c02ValueNames = []string{"word", "amp", "lt", "tag", "dq", "sq", "ent", "lead", "trail", "nbsp", "nilv", "int", "neg", "true", "float", "entlt", "semi", "crlf", "cr", "tabnl", "f32", "f32b", "big", "small", "u8", "i64"}
 
 func (c *c02Case) Run(ctx *core.Ctx) {
 	switch c.Part {
@@ -205,7 +206,7 @@ func (c *c02Case) Run(ctx *core.Ctx) {
 			ctx.Violation("roundtrip", where, trig, fmt.Sprintf("src %q\n out %q\n got: %s\nwant: %s", c.Src, out, oneLine(htmlcmp.String(got)), oneLine(htmlcmp.String(want))))
 		}
 		ctx.Outcome(htmlcmp.String(want))
-	case "interp-text", "interp-attr", "bound", "vhtml":
+	case "interp-text", "interp-attr", "bound", "vhtml", "vtext":
 		v := c02Values[c.Val]
 		ctx.NonTrivial()
 		ctx.Eval(1)
@@ -244,11 +245,18 @@ func (c *c02Case) Run(ctx *core.Ctx) {
 			if strings.TrimFunc(g, htmlcmp.IsHTMLSpace) != strings.TrimFunc(want, htmlcmp.IsHTMLSpace) {
 				ctx.Violation("interp", c.Part, c02ValClass(sv)+"/"+c02ValClass(c.L+c.R), fmt.Sprintf("src %q v=%q: title %q want %q (out %q)", c.Src, sv, g, want, out))
 			}
+		case "vtext":
+			// where white space is content (<pre>, <textarea>) the element's text is the value, all of it
+			// (a raw CR reaches a parser as LF)
+			wantT := strings.ReplaceAll(strings.ReplaceAll(sv, "\r\n", "\n"), "\r", "\n")
+			if g := htmlcmp.Text(s); g != wantT {
+				ctx.Violation("interp", "v-text", c02ValClass(sv), fmt.Sprintf("src %q v=%q: text %q want %q (out %q)", c.Src, sv, g, wantT, out))
+			}
 		case "vhtml":
 			if v == nil && (s.FirstChild != nil) {
 				ctx.Violation("vhtml", "nil-value", "nil", fmt.Sprintf("src %q v=nil: the element has content: %q", c.Src, out))
 			}
-			if !strings.Contains(out, strings.TrimFunc(sv, htmlcmp.IsHTMLSpace)) {
+			if !strings.Contains(out, ">"+sv+"</div>") {
 				ctx.Violation("vhtml", "verbatim", c02ValClass(sv), fmt.Sprintf("src %q v=%q: output %q does not contain the value", c.Src, sv, out))
 			}
 		}
@@ -505,6 +513,8 @@ func c02Enumerate(tier string, emit func(core.Case)) {
 		emit(&c02Case{Part: "bound", Val: vn, Src: `<div><p id="s" :title="v">k</p></div>`})
 		emit(&c02Case{Part: "bound", Val: vn, Src: `<div><p id="s" v-bind:title="v" class="c">k</p></div>`})
 		emit(&c02Case{Part: "vhtml", Val: vn, Src: `<div id="s" v-html="v"></div>`})
+		emit(&c02Case{Part: "vtext", Val: vn, Src: `<pre id="s" v-text="v"></pre>`})
+		emit(&c02Case{Part: "vtext", Val: vn, Src: `<div><textarea id="s" v-text="v">old</textarea></div>`})
 		emit(&c02Case{Part: "vhtml", Val: vn, Src: `<section><div id="s" class="k" v-html="v">old</div></section>`})
 	}
 }
@@ -517,7 +527,7 @@ func init() {
 			"oracle: normalised DOM of parse(render(t)) equals that of parse(t). Interpolation: every value x static neighbours x {text, attr, bound attr, v-html}; oracle: parsed text/attribute = neighbours + string form, v-html verbatim; every interpolation case also right after a render that failed in the middle of a text node / attribute value. " +
 			"non-trivial = parser-stable template or interpolation case; distinct = distinct source text (+value)",
 		Bounds:      map[string]string{"quick": "all forests of <=3 nodes over 23 node labels, depth <=3; full attribute/text/document/interpolation sweeps", "thorough": "all forests of <=4 nodes; same sweeps"},
-		Assumptions: []string{"golang.org/x/net/html is a faithful HTML5 parser", "whitespace-only text, comments, whitespace runs in text and leading/trailing whitespace of attribute values are insignificant", "v-html value is compared after trimming HTML whitespace (the trimming is pinned by a unit test)"},
+		Assumptions: []string{"golang.org/x/net/html is a faithful HTML5 parser", "whitespace-only text, comments, whitespace runs in text and leading/trailing whitespace of attribute values are insignificant"},
 		Decode:      core.DecodeAs[c02Case](),
 		Enumerate:   c02Enumerate,
 	})
